@@ -104,6 +104,7 @@ fn main() {
                 println!("VIOLATION {} :: {}", k, v.desc);
             }
         }
+        "deep" => props::c07::deep_child(&args[2..]),
         "check" => cmd_check(&args[2..]),
         "replay" => cmd_replay(&args[2..]),
         other => {
